@@ -173,6 +173,51 @@ Fixpoint active_metas (skip : bool) (s : list N) : list N :=
 Definition nbsp_expand (s : list N) : list N :=
   flat_map (fun c => if c =? NBSP then NBSP_ENT else [c]) s.
 
+(* escapeText with the word flag of every output rune (inserted backslashes,
+   ampersands and semicolons are no word runes, the letters of the entity are) *)
+Fixpoint esc_text_w (prev_word : bool) (s : list (N * bool)) : list (N * bool) :=
+  match s with
+  | [] => []
+  | (c, w) :: r =>
+    let next_word := match r with (_, w') :: _ => w' | [] => false end in
+    let out :=
+      if (c =? 91) || (c =? 93) || (c =? 42) || (c =? 96) || (c =? 92) || (c =? 60) then [(92, false); (c, w)]
+      else if c =? 95 then (if prev_word && next_word then [(c, w)] else [(92, false); (c, w)])
+      else if c =? 38 then (if Nat.eqb (char_ref_len (map fst s)) 0 then [(c, w)] else [(92, false); (c, w)])
+      else if c =? NBSP then [(38, false); (110, true); (98, true); (115, true); (112, true); (59, w)]
+      else [(c, w)] in
+    out ++ esc_text_w w r
+  end.
+
+(* Inertness of what stays unescaped, judged on the output alone (runes with
+   their word flags): scanning as the inline parser does (a backslash before
+   ASCII punctuation escapes it),
+   - no always-active metacharacter is met unescaped,
+   - an unescaped underscore has word runes on both sides, so that
+     canOpenCloseEmphasis gives it neither the right to open nor to close,
+   - an unescaped ampersand starts no character reference (leadingCharRef of the
+     output text from there is empty), except the nbsp entity written on purpose. *)
+Fixpoint inert_ok (skip prev_word : bool) (out : list (N * bool)) : bool :=
+  match out with
+  | [] => true
+  | (c, w) :: r =>
+    if skip then inert_ok false w r
+    else if (c =? 92) && match r with (d, _) :: _ => is_ascii_punct d | [] => false end
+         then inert_ok true false r
+    else
+      negb (always_meta c)
+      && (negb (c =? 95) || (prev_word && match r with (_, w') :: _ => w' | [] => false end))
+      && (negb (c =? 38) || Nat.eqb (char_ref_len (map fst out)) 0 || has_prefix NBSP_ENT (map fst out))
+      && inert_ok false w r
+  end.
+
+(* word runes are never among the bytes escapeText treats specially (they are
+   punctuation or space) *)
+Definition special_rune (c : N) : bool :=
+  always_meta c || (c =? 95) || (c =? 38) || (c =? NBSP).
+Definition sane (s : list (N * bool)) : bool :=
+  forallb (fun p => negb (snd p) || negb (special_rune (fst p))) s.
+
 (* ---------------- reflow: greedy line breaking ----------------
    spans are written whole and separated by one space; [cur] is the current
    line (reversed), [curw] its width; a span fits while the line stays within
@@ -201,7 +246,7 @@ Inductive case :=
 | KFits (w : nat) (ls : list (nat * bool))       (* per output line: width, breakable *)
 | KFence (info : bytes) (lines : list bytes) (startf endf : bytes)
 | KLinkTail (dest title obs : bytes)
-| KEscText (s : list (N * bool)) (obs : list N)
+| KEscText (s : list (N * bool)) (obs : list (N * bool))
 | KReflowKernel (maxw : nat) (words : list bytes) (obs : list bytes)
 | KReflowObs (maxw : nat) (obs : list bytes).     (* emitted lines, after escaping; ASCII only *)
 
@@ -214,9 +259,10 @@ Definition tail_roundtrip (dest title obs : bytes) : bool :=
   | _ => false
   end.
 
-Definition esc_text_ok (s : list (N * bool)) (obs : list N) : bool :=
-  list_eqb N.eqb (unescape_bs false obs) (nbsp_expand (map fst s))
-  && match active_metas false obs with [] => true | _ => false end.
+Definition esc_text_ok (s : list (N * bool)) (obs : list (N * bool)) : bool :=
+  list_eqb N.eqb (unescape_bs false (map fst obs)) (nbsp_expand (map fst s))
+  && match active_metas false (map fst obs) with [] => true | _ => false end
+  && inert_ok false false obs.
 
 (* every emitted line, as written (a leading backslash included), fits the
    width unless it has no break opportunity left *)
@@ -234,7 +280,7 @@ Definition judge1 (c : case) : N :=
          (let '(ms, me) := code_fences info lines in bytes_eqb ms s && bytes_eqb me e)
   | KLinkTail dest title obs =>
     code (tail_roundtrip dest title obs) (bytes_eqb (format_link_tail dest title) obs)
-  | KEscText s obs => code (esc_text_ok s obs) (list_eqb N.eqb (escape_text s) obs)
+  | KEscText s obs => code (esc_text_ok s obs) (list_eqb N.eqb (escape_text s) (map fst obs))
   | KReflowKernel maxw words obs =>
     code (bytes_eqb (join_sp obs) (join_sp words)
           && forallb (fun l => Nat.leb (length l) maxw || negb (existsb (fun c => c =? 32) l)) obs)
